@@ -321,3 +321,7 @@ def run(ck):
     ck.attempt(rule_early)
     ck.attempt(rule_simulator)
     ck.attempt(rule_random)
+    # "early departure of satisfied EVs": satisfied is the EV's own fully_charged predicate, remaining demand <= 1e-3 (definition rule of C05)
+    from .c05 import rule_active
+    ck.attempt(rule_active)
+
